@@ -154,11 +154,12 @@ impl IndicatorInstance for MoneyFlowIndexInstance {
 		self.pmf += pos - left_pos;
 		self.nmf += neg - left_neg;
 
-		let mfr = if self.nmf == 0.0 {
-			1.
-		} else {
-			self.pmf / self.nmf
-		};
+		// Both flows are non-negative by definition, but they are updated incrementally and may be left with a
+		// tiny residue of either sign.
+		let pmf = self.pmf.max(0.);
+		let nmf = self.nmf.max(0.);
+
+		let mfr = if nmf > 0.0 { pmf / nmf } else { 1. };
 
 		let value = 1. - (1. + mfr).recip();
 
